@@ -269,6 +269,16 @@ def judge(ctx, focus, d, exp, r, tr, v, pb, dead):
                     ctx.violation("output-port-differs-from-denotation:%s" % cls, dict(detail, port=p, got=toks, want=want),
                                   "output port %s of %s carries %s, expected %s" % (p, name, toks, want))
     if focus == "C07":
+        # statement level (Dataflow!JobMatchesGroup): the output of a job step for tag t depends on the JobToken scheduled for t
+        kinds = {s0["name"]: s0["kind"] for s0 in dt.expand(d)["steps"]}
+        for e in tr:
+            if e.get("ev") == "emit" and kinds.get(e.get("step")) == "exec":
+                jdeps = [x for x in e.get("deps") or [] if x[0] == e["step"] + ".job"]
+                if jdeps and all(x[1] != e["tag"] for x in jdeps):
+                    ctx.violation("provenance:job-token-of-another-tag:exec", dict(detail, event=e, trace=tr),
+                                  "token %s@%s of %s was computed by (and is linked to) the job scheduled for tag %s" % (
+                                      e.get("port"), e.get("tag"), name, jdeps[0][1]))
+                    break
         toks_db, prov_db, ports_db = r["db"] if r.get("db") else ({}, [], {})
         want = set()
         for e in r["events"]:
